@@ -36,14 +36,12 @@ Print Assumptions C04_poll_delivers.
 
 (* Non-vacuity: two loads outstanding; completing them in either order and polling gives the same state. *)
 Definition c04_world : world :=
-  {| w_resp := [(1, WMissing); (2, WError)]; w_class := []; w_file := []; w_max_redirects := 10 |}.
+  {| w_resp := [(1, WMissing); (2, WError)]; w_resp_reload := []; w_http := []; w_lock := None; w_class := []; w_file := []; w_max_redirects := 10 |}.
 Definition c04_opts : bopts :=
   {| bo_kind := KAll; bo_is_dynamic := false; bo_skip_dynamic := false; bo_unstable_bytes := false;
      bo_unstable_text := false; bo_unstable_css := false |}.
 Definition c04_st0 : bstate :=
-  load_roots c04_world c04_opts
-    {| st_slots := []; st_redirects := []; st_has_node := false; st_pending := []; st_dyn := [];
-       st_deferred := []; st_in_dyn := false; st_resolved_roots := []; st_loads := [] |} [1; 2].
+  load_roots c04_world c04_opts (init_state c04_world c04_opts (empty_bgraph KAll)) [1; 2].
 Example C04_nonvacuous :
   idle (ss_st (srun c04_world c04_opts (start c04_st0) [Complete 1; Poll; Complete 0; Poll; Complete 0; Poll; Poll])) = true /\
   idle (ss_st (srun c04_world c04_opts (start c04_st0) [Complete 0; Poll; Poll; Complete 0; Poll; Poll])) = true /\
